@@ -3,6 +3,7 @@ package main
 import (
 	"fmt"
 	"go/ast"
+	"go/constant"
 	"go/token"
 	"go/types"
 	"math/big"
@@ -60,7 +61,7 @@ func (fv *FnV) evalCond(st *State, e ast.Expr) string {
 }
 
 func (fv *FnV) eval(st *State, e ast.Expr) Val {
-	if tv, ok := fv.prog.Info.Types[e]; ok && tv.Value != nil {
+	if tv, ok := fv.prog.Info.Types[e]; ok && tv.Value != nil && tv.Value.Kind() != constant.String {
 		if lit, ok := fv.smt.constLit(tv.Value, tv.Type); ok {
 			return Val{lit, fv.smt.resolve(tv.Type)}
 		}
@@ -71,6 +72,9 @@ func (fv *FnV) eval(st *State, e ast.Expr) Val {
 	case *ast.Ident:
 		return fv.evalIdent(st, x)
 	case *ast.BasicLit:
+		if x.Kind == token.STRING {
+			return Val{fv.fresh("str", "Int"), fv.typeOf(e)}
+		}
 		fv.unsupported(x, "literal "+x.Value)
 		return Val{"0", fv.typeOf(e)}
 	case *ast.SelectorExpr:
@@ -153,6 +157,12 @@ func (fv *FnV) evalIdent(st *State, id *ast.Ident) Val {
 		v := Val{fv.smt.zeroOf(o.Type()), fv.smt.resolve(o.Type())}
 		st.vars[o] = v
 		return v
+	}
+	if fo, ok := obj.(*types.Func); ok {
+		// a function used as a value: a distinct constant per function
+		name := "Fn_" + sanitize(fo.Name())
+		fv.smt.declareFun(name, fmt.Sprintf("(declare-const %s Int)", name))
+		return Val{name, fv.smt.resolve(fo.Type())}
 	}
 	fv.unsupported(id, "identifier "+id.Name)
 	return Val{fv.fresh("unk", fv.smt.sortOf(fv.typeOf(id))), fv.typeOf(id)}
